@@ -11,7 +11,8 @@ import os, sys, time, json, signal, select, subprocess, hashlib, fcntl, re, reso
 import multiprocessing as mp
 
 VERIF = os.path.dirname(os.path.dirname(os.path.abspath(__file__)))
-BUILD = os.path.join(VERIF, 'build')
+BUILD = os.environ.get('VERIF_BUILD') or os.path.join(VERIF, 'build')
+OUTDIR = os.environ.get('VERIF_OUT') or VERIF     # evidence/ and replays/ live here (overridden only for trial runs against scratch trees)
 REPO = os.environ.get('VERIF_REPO', '/repo')
 
 SAFE = set(b'abcdefghijklmnopqrstuvwxyzABCDEFGHIJKLMNOPQRSTUVWXYZ0123456789_-')
@@ -485,7 +486,7 @@ class Check:
         self.assumptions = []
         if not self.replay:
             # replay files of earlier runs of this check are stale
-            d = os.path.join(VERIF, 'replays', self.pid)
+            d = os.path.join(OUTDIR, 'replays', self.pid)
             if os.path.isdir(d):
                 for f in os.listdir(d):
                     if f.endswith('.case'):
@@ -540,7 +541,7 @@ class Check:
     # -- finishing
     def write_replays(self):
         paths = []
-        d = os.path.join(VERIF, 'replays', self.pid)
+        d = os.path.join(OUTDIR, 'replays', self.pid)
         os.makedirs(d, exist_ok=True)
         for v in self.violations:
             if v is None:
@@ -572,8 +573,8 @@ class Check:
         ev = {'property_id': self.pid, 'tier': self.tier, 'seed': self.seed, 'level': level,
               'coverage': c, 'assumptions': self.assumptions, 'wall_s': round(time.time() - self.t0, 2),
               'violations': nviol}
-        os.makedirs(os.path.join(VERIF, 'evidence'), exist_ok=True)
-        with open(os.path.join(VERIF, 'evidence', self.pid + '.json'), 'w') as f:
+        os.makedirs(os.path.join(OUTDIR, 'evidence'), exist_ok=True)
+        with open(os.path.join(OUTDIR, 'evidence', self.pid + '.json'), 'w') as f:
             json.dump(ev, f, indent=1, default=str)
         for what, n in sorted(self.known_hits.items()):
             print('KNOWN-FINDING: property=%s %s (%d cases)' % (self.pid, what, n))
